@@ -1,7 +1,7 @@
 """Per-property check plans: which jobs to run in which tier, what coverage is required, what goes in the evidence."""
 from core import Job, NCPU
 
-SETUP_MODES = ["dbg", "rel", "off", "nostd", "asan", "miri", "tsan"]
+SETUP_MODES = ["dbg", "rel", "off", "nostd", "asan", "miri", "tsan", "tsanrel", "mirirel"]
 
 MEM = ("C01",)
 
@@ -223,9 +223,11 @@ def conc_jobs(mode, scen, total, seed, props, delay=1, nshards=4, first0=0, leng
         if forced:
             # every scenario of this job is expanded into a forced-preemption sweep (one long preemption at each count operation)
             args.append("forced=%d" % cnt)
-        if mode in ("asan", "tsan"):
+        if mode in ("asan", "tsan", "tsanrel"):
             args.append("shadow=0")
-        jobs.append(Job(mode, args, san_props=props, crash_props=props, timeout=timeout))
+        # every second ThreadSanitizer shard runs the build without debug assertions (see core.MODES)
+        m = "tsanrel" if mode == "tsan" and len(jobs) % 2 == 1 else mode
+        jobs.append(Job(m, args, san_props=props, crash_props=props, timeout=timeout))
     return jobs
 
 
@@ -234,7 +236,8 @@ def miri_conc_jobs(scen, nseeds, per, seed, props, tb_every=5, first0=0, length=
     for i in range(nseeds):
         tb = tb_every and (i % tb_every == tb_every - 1)
         extra = extra_flags[i % len(extra_flags)] if extra_flags else ""
-        jobs.append(Job("miri", ["conc", "scen=%s" % scen, "seed=%d" % seed, "first=%d" % (first0 + i * per), "n=%d" % per, "len=%d" % length, "delay=1"] + (["forced=%d" % per] if forced else []),
+        # every third Miri shard interprets the build without debug assertions
+        jobs.append(Job("mirirel" if i % 3 == 2 else "miri", ["conc", "scen=%s" % scen, "seed=%d" % seed, "first=%d" % (first0 + i * per), "n=%d" % per, "len=%d" % length, "delay=1"] + (["forced=%d" % per] if forced else []),
                         san_props=props, crash_props=props, miri_seed=seed * 4096 + i, tb=bool(tb), miri_extra=extra, timeout=1500))
     return jobs
 
@@ -324,8 +327,8 @@ class C02(Plan):
             count_events=counts.get("conc.count_events", 0),
             payload_reads=counts.get("conc.payload_reads", 0),
             no_drop_glue_payload_executions=sub(counts, "conc.plaindrop."),
-            miri_seeds=sum(1 for r in results if r.job.mode == "miri"),
-            tsan_executions=sum(rec.get("counts", {}).get("conc.clonedrop", 0) for r in results if r.job.mode == "tsan" for rec in r.records if rec.get("t") == "stats"),
+            miri_seeds=sum(1 for r in results if r.job.mode.startswith("miri")),
+            tsan_executions=sum(rec.get("counts", {}).get("conc.clonedrop", 0) for r in results if r.job.mode.startswith("tsan") for rec in r.records if rec.get("t") == "stats"),
             hooked=bool(other.get("hooked")),
         )
 
@@ -430,7 +433,7 @@ class C03(HistConc):
             schedule_executions=sub(counts, "conc.uniqpoll."),
             forced_preemption_runs=counts.get("conc.forced_runs", 0),
             distinct_interleavings=len(sets.get("interleavings", ())),
-            miri_seeds=sum(1 for r in results if r.job.mode == "miri"),
+            miri_seeds=sum(1 for r in results if r.job.mode.startswith("miri")),
         )
 
     def required(self, counts, sets, other):
@@ -476,7 +479,7 @@ class C08(HistConc):
             per_api=t,
             schedule_executions=sub(counts, "conc.cow."),
             forced_preemption_runs=counts.get("conc.forced_runs", 0),
-            miri_seeds=sum(1 for r in results if r.job.mode == "miri"),
+            miri_seeds=sum(1 for r in results if r.job.mode.startswith("miri")),
         )
 
     def required(self, counts, sets, other):
@@ -524,7 +527,7 @@ class C09(HistConc):
             race_outcomes=sub(counts, "conc.unwraprace."),
             forced_preemption_runs=counts.get("conc.forced_runs", 0),
             distinct_interleavings=len(sets.get("interleavings", ())),
-            miri_seeds=sum(1 for r in results if r.job.mode == "miri"),
+            miri_seeds=sum(1 for r in results if r.job.mode.startswith("miri")),
         )
 
     def required(self, counts, sets, other):
@@ -721,7 +724,7 @@ def simple_jobs(mode, args, props, nshards=1, timeout=1200, sharded=True):
         a = list(args)
         if sharded and nshards > 1:
             a += ["shard=%d" % k, "nshards=%d" % nshards]
-        if mode in ("asan", "memcheck", "tsan"):
+        if mode in ("asan", "memcheck", "tsan", "tsanrel"):
             a.append("shadow=0")
         sd = next((int(x[5:]) for x in a if x.startswith("seed=")), 0)
         a += fill_arg(mode, k + (1 if mode == "rel" else 0), sd)
